@@ -403,7 +403,9 @@ pub fn check_main(args: CheckArgs) -> i32 {
     for (class, list) in &by_class {
         let first = &list[0];
         if let Some(text) = replay::known_match(&findings, &a.prop, class) {
-            println!("KNOWN-FINDING: property={} {} (met {} time(s) in this run)", a.prop, text.trim_start_matches("known:").trim(), list.len());
+            let what = text.trim_start_matches("known:").trim();
+            let what = what.strip_prefix(&format!("property={}", a.prop)).unwrap_or(what).trim();
+            println!("KNOWN-FINDING: property={} {} (met {} time(s) in this run)", a.prop, what, list.len());
             known_reported += 1;
             continue;
         }
